@@ -178,4 +178,144 @@ Proof.
         destruct Ht as (p & Hp & Hk). rewrite Hl in Hp. inversion Hp; subst p. cbn in Hk. congruence.
     + eapply Hc; eauto.
 Qed.
+Lemma not_closed_beyond st L s : Inv st -> (length (layers st) <= L)%nat -> closed_in (outs st) L s = false.
+Proof.
+  intros [HA _] Hle. destruct (closed_in (outs st) L s) eqn:E; auto. exfalso.
+  unfold closed_in in E. apply existsb_exists in E. destruct E as (o & Hin & Hc).
+  pose proof (inv_outs _ _ _ _ _ HA) as Ht. rewrite Forall_forall in Ht. specialize (Ht o Hin).
+  assert (Hlen : length (idl C st) = length (layers st)) by (unfold idl; apply map_length).
+  destruct o as [L2 s2 i2 d2 f2|L2 s2 i2 c2| | |]; cbn in Hc; try discriminate.
+  - destruct f2; try discriminate. apply andb_true_iff in Hc. destruct Hc as [A _]. apply Nat.eqb_eq in A. subst L2.
+    cbn in Ht. apply hasA_lt in Ht. lia.
+  - apply andb_true_iff in Hc. destruct Hc as [A _]. apply Nat.eqb_eq in A. subst L2.
+    cbn in Ht. apply hasA_lt in Ht. lia.
+Qed.
+
+Lemma P_close w L s st : P st -> P (close_stream_layer C child_step w L s st).
+Proof.
+  intros H. unfold close_stream_layer, close_stream_layer_with.
+  assert (Hr : forall st, P st -> P (upd_layer C L (set_conn C s (set_read false)) st)).
+  { intros st0 [H1 H2]. split; [apply Inv_upd; auto; apply keeps_set_conn | apply WD_set_conn; auto]. }
+  destruct (nth_error (layers st) L) as [l|]; [|destruct H; split; auto].
+  destruct (negb _); [destruct (Hr st H); split; auto|].
+  destruct (ts_end _); [apply Hr; auto|].
+  apply P_etc. destruct (Hr st H) as [H1 H2].
+  split; [apply Inv_upd; auto; apply keeps_set_conn | apply WD_set_conn; auto].
+Qed.
+
+Lemma P_post from k L st : P st -> P (post C child_step from k L st).
+Proof.
+  intros H. unfold post. destruct (err st); auto.
+  destruct k as [d fin|code|code].
+  - set (st1 := if is_empty d then st else _).
+    assert (H1 : P st1) by (unfold st1; destruct (is_empty d); auto; apply P_etc; auto).
+    destruct (err st1); auto. destruct fin; auto. apply P_close; auto.
+  - apply P_close; auto.
+  - destruct H; split; auto.
+Qed.
+
+Lemma P_handle_stream from id k st : P st -> P (handle_stream C child_step new_child from id k st).
+Proof.
+  intros H. unfold handle_stream.
+  destruct (dict_get id _) as [L|] eqn:Eg; [apply P_post; auto|].
+  destruct (negb (Bool.eqb (stream_is_client_initiated id) (is_cl from))) eqn:Ei; [destruct H; split; auto|].
+  destruct (create_layer C new_child from id st) as [[L st2]|] eqn:Ec; [|destruct H; split; auto].
+  apply P_post, P_etc. destruct H as [H1 [Hw Hc]].
+  destruct (Inv_create C new_child from id st L st2 H1 Eg Ei Ec) as (HI & HL & Ho & _ & l' & Hl).
+  split; auto. split; rewrite Ho; auto.
+  intros L' l'' s Hn Hx. rewrite Hl in Hn.
+  destruct (Nat.lt_ge_cases L' (length (layers st))) as [Hlt|Hge].
+  - rewrite nth_error_app1 in Hn by auto. eapply Hc; eauto.
+  - rewrite (not_closed_beyond st L' s H1 Hge) in Hx. discriminate.
+Qed.
+
+Lemma P_sweep from ls st : P st ->
+  P (fold_left (fun st L => match err st with Some _ => st | None =>
+         close_stream_layer C child_step WConnClose L from (upd_layer C L (set_conn C from (set_write false)) st) end) ls st).
+Proof.
+  revert st. induction ls as [|L t IH]; intros st2 H2; cbn; auto.
+  apply IH. destruct (err st2); auto. apply P_close. destruct H2 as [H1 H2].
+  split; [apply Inv_upd; auto; apply keeps_set_conn | apply WD_set_conn; auto].
+Qed.
+
+Lemma P_conn_closed from code st : P st -> P (handle_conn_closed C child_step from code st).
+Proof.
+  intros [H1 H2]. unfold handle_conn_closed. apply P_sweep.
+  assert (Hq : forall st0, P st0 -> P (push C (OCloseConn (other from) code) st0)).
+  { intros st0 [A B]. split; [apply Inv_push; cbn; auto | apply WD_push_quiet; auto]. }
+  destruct from; cbn [root_s root_c with_roots].
+  - destruct (root_s st); [apply Hq|]; split; auto.
+  - destruct (root_c st); [apply Hq|]; split; auto.
+Qed.
+
+Lemma P_step st ev : P st -> P (step C child_step new_child st ev).
+Proof.
+  intros H. unfold step. destruct (err st); auto. destruct (done st); auto.
+  destruct ev; [apply P_handle_stream | apply P_conn_closed]; auto.
+Qed.
+
+Lemma P_fold evs st : P st -> P (fold_left (step C child_step new_child) evs st).
+Proof. revert st; induction evs as [|e t IH]; intros st H; cbn; auto. apply IH, P_step; auto. Qed.
+
+Theorem P_run evs : P (run C child_step new_child evs).
+Proof.
+  apply P_fold. split; [apply Inv_init|]. split; cbn; auto. intros [|?] l s Hn; discriminate.
+Qed.
+
+(* the ghost layer of a command on (side, id) is determined by (side, id) *)
+Definition on_stream (o : out) (to : side) (id : N) : bool :=
+  match o with
+  | OSend _ s i _ _ | OReset _ s i _ => side_eqb s to && (i =? id)
+  | _ => false
+  end.
+Definition ends_stream (o : out) (to : side) (id : N) : bool :=
+  match o with
+  | OSend _ s i _ true | OReset _ s i _ => side_eqb s to && (i =? id)
+  | _ => false
+  end.
+
+Lemma owner_unique st L1 L2 s id : Inv st -> hasA (idl C st) L1 s id -> hasA (idl C st) L2 s id -> L1 = L2.
+Proof.
+  intros [HA _] H1 H2. destruct s.
+  - apply (inv_cmap _ _ _ _ _ HA) in H1, H2. congruence.
+  - apply (inv_smap _ _ _ _ _ HA) in H1, H2. congruence.
+Qed.
+
+(* in the chronological command list: after a FIN / reset on (to, id) nothing is written to (to, id) *)
+Theorem no_write_after_fin evs pre o post to id :
+  rev (outs (run C child_step new_child evs)) = pre ++ o :: post ->
+  ends_stream o to id = true ->
+  forall o', In o' post -> on_stream o' to id = false.
+Proof.
+  intros Hrev He o' Hin.
+  destruct (P_run evs) as [HI [Hw _]].
+  set (st := run C child_step new_child evs) in *.
+  assert (Hos : outs st = rev post ++ o :: rev pre).
+  { rewrite <- (rev_involutive (outs st)), Hrev, rev_app_distr. cbn. rewrite <- app_assoc. reflexivity. }
+  pose proof (inv_outs _ _ _ _ _ (proj1 HI)) as Ht. rewrite Forall_forall in Ht.
+  assert (Io : In o (outs st)) by (rewrite Hos; apply in_or_app; right; left; reflexivity).
+  assert (Io' : In o' (outs st)) by (rewrite Hos; apply in_or_app; left; apply in_rev in Hin; exact Hin).
+  destruct (on_stream o' to id) eqn:Eo; auto. exfalso.
+  assert (Ho : exists L, hasA (idl C st) L to id /\ closes o L to = true).
+  { specialize (Ht o Io). destruct o as [L s i d f|L s i c| | |]; cbn in He; try discriminate.
+    - destruct f; try discriminate. apply andb_true_iff in He. destruct He as [A B].
+      apply side_eqb_eq in A. apply N.eqb_eq in B. subst. exists L. split; auto. cbn.
+      rewrite Nat.eqb_refl. destruct to; reflexivity.
+    - apply andb_true_iff in He. destruct He as [A B].
+      apply side_eqb_eq in A. apply N.eqb_eq in B. subst. exists L. split; auto. cbn.
+      rewrite Nat.eqb_refl. destruct to; reflexivity. }
+  assert (Ho' : exists L, hasA (idl C st) L to id /\ writes o' L to = true).
+  { specialize (Ht o' Io'). destruct o' as [L s i d f|L s i c| | |]; cbn in Eo; try discriminate.
+    - apply andb_true_iff in Eo. destruct Eo as [A B].
+      apply side_eqb_eq in A. apply N.eqb_eq in B. subst. exists L. split; auto. cbn.
+      rewrite Nat.eqb_refl. destruct to; reflexivity.
+    - apply andb_true_iff in Eo. destruct Eo as [A B].
+      apply side_eqb_eq in A. apply N.eqb_eq in B. subst. exists L. split; auto. cbn.
+      rewrite Nat.eqb_refl. destruct to; reflexivity. }
+  destruct Ho as (L1 & Hh1 & Hc1). destruct Ho' as (L2 & Hh2 & Hw2).
+  assert (L1 = L2) by (eapply owner_unique; eauto). subst L2.
+  rewrite Hos in Hw. pose proof (wf_outs_app _ _ _ _ _ Hw Hc1 o') as Hx.
+  rewrite Hx in Hw2; [discriminate|]. apply in_rev in Hin. exact Hin.
+Qed.
+
 End Write.
